@@ -16,4 +16,6 @@ let table : (string * (val0 -> val0)) list = [
   "chk_fwd_e2e", chk_fwd_e2e;
   "chk_c10_err", chk_c10_err;
   "chk_c10_neg", chk_c10_neg;
+  "chk_c13_records", chk_c13_records;
+  "chk_c13_ws", chk_c13_ws;
 ]
